@@ -31,7 +31,7 @@ STD_SIGNIFICANT = re.compile(
     r"(Mutex|RwLock)(<.*>)?::(lock|read|write)$|::(send|try_send|recv|try_recv|blocking_send)$|::(from_slice|from_compatible_slice|new_unchecked|from_slice_should_be_ok|as_slice|as_bytes|raw_data)$)")
 EXTRA_SCOPES = {
     "C05": ["script/src/syscalls/", "script/src/verify_env.rs"],
-    "C16": ["sync/src/relayer/", "network/src/protocols/support_protocols.rs"],
+    "C16": ["sync/src/relayer/", "sync/src/synchronizer/", "sync/src/filter/", "network/src/protocols/", "util/light-client-protocol-server/src/", "util/network-alert/src/"],
     "C11": ["tx-pool/src/component/"],
     "C12": ["tx-pool/src/component/pool_map.rs"],
     "C18": ["util/indexer/src/"],
@@ -96,7 +96,9 @@ def fkey(path):
 
 
 def show_dec(h):
-    return "%s %s %s -> %s else %s" % (list(h[1]), h[0], list(h[2]), sorted(map(str, h[3]))[:3], sorted(map(str, h[4]))[:3])
+    if isinstance(h, list) and h and h[0] in ("write-then-call", "call-then-write"):
+        return "%s: %s, %s" % tuple(h[:3])
+    return "%s %s %s -> %s else %s%s" % (list(h[1]), h[0], list(h[2]), sorted(map(str, h[3]))[:3], sorted(map(str, h[4]))[:3], (" effects %s" % (h[5],)) if len(h) > 5 else "")
 
 
 def jd(x):
@@ -107,7 +109,7 @@ def jd(x):
         if isinstance(v, (set, frozenset)):
             return sorted((conv(y) for y in v), key=lambda z: json.dumps(z))
         return v
-    return json.dumps(conv(x), sort_keys=True)
+    return re.sub(r"\{closure#\d+\}", "{closure}", json.dumps(conv(x), sort_keys=True))
 
 
 def canon(h):
@@ -131,16 +133,120 @@ def canon(h):
     return (op, a, b, t, f)
 
 
+def _self_receiver(c):
+    """does the call take `self` as its first argument? (type of arg 0 names the callee's type)"""
+    if not c.args or not c.atys:
+        return False
+    segs = re.sub(r"<[^<>]*>", "", re.sub(r"<[^<>]*>", "", re.sub(r"<[^<>]*>", "", c.callee))).split("::")
+    if len(segs) < 2:
+        return False
+    ty = re.sub(r"<.*$", "", str(c.atys[0]).replace("&mut ", "").replace("&", "").strip()).split("::")[-1]
+    tseg = segs[-2].strip("<>").split(" as ")[0].split("::")[-1]
+    return bool(ty) and (ty == tseg or tseg in ("Self",) or (c.res and ("::" + ty + "::") in re.sub(r"<[^<>]*>", "", c.res)))
+
+
+def call_entry(b, c, S):
+    """significant call with the forms of its (non-receiver) arguments"""
+    name = through_wrappers(c, S) if S is not None else significant(c)
+    args = c.args[1:] if _self_receiver(c) else c.args
+    try:
+        forms = [list(K.form(b, a)) for a in args]
+    except Exception:
+        forms = ["?"]
+    return jd([name, forms])
+
+
+def side_effects(b, sw, tts, fts, sig_by_bb):
+    """significant callees reachable only from the true side / only from the false side of a decision made in block `sw`, within the
+    same loop iteration (the walk stops at every block that dominates the decision, i.e. at the enclosing loop heads)"""
+    stop = {x for x in range(len(b.blocks)) if b.dominates(x, sw)}
+    rt, rf = set(), set()
+    for t in tts:
+        if t is not None:
+            rt |= b.reachable(t, avoid=stop)
+    for t in fts:
+        if t is not None:
+            rf |= b.reachable(t, avoid=stop)
+    ct = {sig_by_bb[x] for x in rt if x in sig_by_bb}
+    cf = {sig_by_bb[x] for x in rf if x in sig_by_bb}
+    return sorted(ct - cf), sorted(cf - ct)
+
+
+def mem_order(b, sig_calls):
+    """dependence order through memory: a write to a field of X and a significant call that takes X (or part of X): which dominates which"""
+    out = Counter()
+    writes = []
+    for i, blk in enumerate(b.blocks):
+        for st in blk["s"]:
+            pl = st[0]
+            fl = [str(x).split(".")[-1] for x in pl[1] if str(x).startswith(".")]
+            if fl:
+                writes.append((i, pl[0], fl[-1]))
+    if not writes:
+        return out
+    roots = {}
+
+    def root(l, seen=()):
+        if l in roots:
+            return roots[l]
+        r = l
+        ds = [d for d in b.defs().get(l, []) if d[0] == "call" or not d[2][1]]     # whole-local definitions only (not writes through it)
+        if len(ds) == 1 and ds[0][0] == "assign" and l not in seen:
+            rv = ds[0][3]
+            if rv.get("k") in ("use", "cast") and "p" in rv["o"]:
+                r = root(rv["o"]["p"][0], seen + (l,))
+            elif rv.get("k") == "ref":
+                r = root(rv["p"][0], seen + (l,))
+        elif len(ds) == 1 and ds[0][0] == "call" and l not in seen:
+            c = ds[0][2]
+            # a guard / smart pointer dereferenced again: same object
+            if re.search(r"(Deref::deref|DerefMut::deref_mut|::as_ref|::as_mut|::borrow|::borrow_mut)$", c.callee) and c.args and "p" in c.args[0]:
+                r = root(c.args[0]["p"][0], seen + (l,))
+        roots[l] = r
+        return r
+    for (wb, wl, fld) in writes:
+        wr = root(wl)
+        for c, name in sig_calls:
+            if c.bb == wb:
+                continue
+            if any("p" in a and root(a["p"][0]) == wr for a in c.args):
+                if b.dominates(wb, c.bb):
+                    out[jd(["write-then-call", fld, name])] += 1
+                elif b.dominates(c.bb, wb):
+                    out[jd(["call-then-write", name, fld])] += 1
+    return out
+
+
 def fingerprint(root, bodies, S=None):
     dec = Counter()
     calls = Counter()
     for b in bodies:
+        sig_calls = [(c, significant(c)) for c in b.calls if significant(c)]
+        sig_by_bb = {c.bb: n for c, n in sig_calls}
+        try:
+            for k, n in mem_order(b, sig_calls).items():
+                dec[k] += n
+        except Exception:
+            dec["<mem-order-error>"] += 1
         try:
             seen_sites = set()
             for h, site in K.decision_sites(b, ignore=IGNORE, matches=True):
                 if not h[3] or not h[4]:
                     continue
-                ch = jd(canon(h))
+                hc = canon(h)
+                # effects that depend on the decision: significant callees reachable only from one side
+                try:
+                    if h[0] == "match" and hasattr(site, "arm_target"):
+                        et, ef = side_effects(b, site.bb, [site.arm_target], site.other_targets, sig_by_bb)
+                    else:
+                        bts = K.branch_targets(b, site)
+                        et, ef = side_effects(b, bts[0][0], [x[1] for x in bts], [x[2] for x in bts], sig_by_bb) if bts else ((), ())
+                    # the canonical form may have swapped the sides (le -> lt, is_some -> None, Some arm -> None arm): keep effects aligned
+                    flipped = (h[3] != hc[3]) if h[3] != h[4] else (h[0] == "le" or (h[1] and str(h[1][0]).endswith(("is_some", "is_ok"))) or (h[0] == "match" and h[1] != hc[1]))
+                    hc = tuple(hc) + (((tuple(ef), tuple(et)) if flipped else (tuple(et), tuple(ef))),)
+                except Exception:
+                    pass
+                ch = jd(hc)
                 if h[0] == "match":
                     # both arms of a two-variant match canonicalise to the same predicate: count the switch once
                     if (site.bb, ch) in seen_sites:
@@ -149,10 +255,8 @@ def fingerprint(root, bodies, S=None):
                 dec[ch] += 1
         except Exception as e:  # a body the form analysis cannot handle is fingerprinted by its calls only
             dec["<analysis-error:%s>" % type(e).__name__] += 1
-        for c in b.calls:
-            s = significant(c)
-            if s:
-                calls[through_wrappers(c, S) if S is not None else s] += 1
+        for c, s in sig_calls:
+            calls[call_entry(b, c, S)] += 1
     return {"dec": dict(dec), "calls": dict(calls)}
 
 
@@ -247,9 +351,9 @@ def check(R, F, prop, S=None):
         if new_d:
             parts.append("decision(s) now made: " + "; ".join(show_dec(json.loads(d)) for d in new_d[:2]))
         if gone_c:
-            parts.append("step(s) dropped: " + ", ".join("%s x%d" % (c, want["calls"][c] - have["calls"].get(c, 0)) for c in gone_c[:6]))
+            parts.append("step(s) dropped or changed: " + ", ".join("%s x%d" % (c[:160], want["calls"][c] - have["calls"].get(c, 0)) for c in gone_c[:4]))
         if new_c:
-            parts.append("step(s) added: " + ", ".join("%s x%d" % (c, have["calls"][c] - want["calls"].get(c, 0)) for c in new_c[:6]))
+            parts.append("step(s) added or changed: " + ", ".join("%s x%d" % (c[:160], have["calls"][c] - want["calls"].get(c, 0)) for c in new_c[:4]))
         R.bad(key, "%s differs from the reviewed reference in %s: %s" % (fkey(path), body.file, " | ".join(parts))[:1500], [body.where()])
     if n_ok:
         R.ok("fp/unchanged", "%d of %d functions of the anchor files have the reference decisions and significant calls" % (n_ok, len(fz)), [])
